@@ -65,6 +65,25 @@ theorem eds_after_cds_answered (s : State) (w : WR) (cdsNames : List String) (ol
     | cons a as => simp [Req.unsub]
   exact ⟨_, always_respond_answers _ _ { w with always := true } rfl hu h1 hn rfl rfl⟩
 
+/-- The same for ANY non-empty name list the proxy re-sends: the cluster set may have changed while it was
+    away (clusters deleted and/or added), so the re-sent EDS subscription differs from the one recorded before
+    CDS - the answer is still a FULL generation (`[]` = no narrowing to the added names), because every listed
+    cluster may be warming.  (A server that honoured `AlwaysRespond` only for unchanged names would answer
+    nothing when a cluster was deleted, and only the added names otherwise.) -/
+theorem eds_after_cds_answered_any_names (s : State) (w : WR) (cdsNames names : List String) (oldNonce : String)
+    (hcds : s .cds = none) (heds : s .eds = some w) (hn : w.nonceSent ≠ "") (hnames : names ≠ []) :
+    ∃ s1, shouldRespond s { ty := .cds, names := cdsNames, nonce := oldNonce, err := none } = .out true [] s1 ∧
+      ∃ s2, shouldRespond s1 { ty := .eds, names := names, nonce := w.nonceSent, err := none } = .out true [] s2 := by
+  refine ⟨newWatched s .cds cdsNames,
+    reconnect_request_answered_sotw s .cds cdsNames oldNonce hcds (by simp [Ty.wildcard]), ?_⟩
+  have h1 : newWatched s .cds cdsNames .eds = some { w with always := true } := by
+    simp [newWatched, Ty.warming, markWarming, State.set, heds]
+  have hu : ({ ty := .eds, names := names, nonce := w.nonceSent, err := none } : Req).unsub = false := by
+    cases hl : names with
+    | nil => exact absurd hl hnames
+    | cons a as => simp [Req.unsub]
+  exact ⟨_, always_respond_answers _ _ { w with always := true } rfl hu h1 hn rfl rfl⟩
+
 /-! ## Delta, wildcard types: retained state is reconciled by the first answer -/
 
 /-- The name set recorded / handed to the generator for a first delta request that subscribes
